@@ -1,4 +1,6 @@
 pub mod common;
+pub mod history;
+pub mod modes;
 pub mod scan;
 
 use crate::run::Check;
@@ -8,7 +10,11 @@ pub fn all() -> Vec<Box<dyn Check>> {
         Box::new(scan::C01),
         Box::new(scan::C04),
         Box::new(scan::C05),
+        Box::new(modes::C06),
         Box::new(scan::C07),
+        Box::new(history::C09),
+        Box::new(history::C10),
+        Box::new(history::C11),
     ]
 }
 
